@@ -46,10 +46,8 @@ func Spec_PrepareCumulatedWeightsMap(
 	}
 	for _, a := range params.ConsideredAlternatives {
 		for crit, v := range a.Criteria {
-			w, ok := weights[crit]
-			if !ok {
-				weights[crit] = mapper(crit, v)
-			} else {
+			// C15/C07: only declared criteria have an importance; extra values of an alternative are ignored
+			if w, declared := weights[crit]; declared {
 				weights[crit] = w + mapper(crit, v)
 			}
 		}
